@@ -8,20 +8,20 @@ set_option maxHeartbeats 1000000
 namespace CircBuf
 
 /-! ### swap / swap_remove -/
-theorem tie_swap (i j : Nat) (s : Sys) (h : Inv s.buf)
+maybe theorem tie_swap (i j : Nat) (s : Sys) (h : Inv s.buf)
     (hnd : NonDefect (swap i j s).1) :
     Gen.swap i j s = swap i j s := by
   tie3 h hnd [Gen.swap, swap]
 
-/-- the documented panics of `swap`, evaluated directly on the translated body (no invariant needed) -/
+maybe /-- the documented panics of `swap`, evaluated directly on the translated body (no invariant needed) -/
 theorem gen_swap_panics_i (s : Sys) (i j : Nat) (hi : ¬ i < s.buf.size) :
     Gen.swap i j s = (.error (.doc "swap_i"), s) := by
   tie [Gen.swap]
-theorem gen_swap_panics_j (s : Sys) (i j : Nat) (hi : i < s.buf.size) (hj : ¬ j < s.buf.size) :
+maybe theorem gen_swap_panics_j (s : Sys) (i j : Nat) (hi : i < s.buf.size) (hj : ¬ j < s.buf.size) :
     Gen.swap i j s = (.error (.doc "swap_j"), s) := by
   tie [Gen.swap]
 
-/-- `swap_remove_back`: by unfolding the whole fragment; if the body still is `swap` followed by
+maybe /-- `swap_remove_back`: by unfolding the whole fragment; if the body still is `swap` followed by
 `pop_back`, through the ties of those two -/
 theorem tie_swap_remove_back (i : Nat) (s : Sys) (h : Inv s.buf)
     (hnd : NonDefect (swapRemoveBack i s).1) :
@@ -38,7 +38,7 @@ theorem tie_swap_remove_back (i : Nat) (s : Sys) (h : Inv s.buf)
        simp only [e, tie_pop_back { s with buf := b' } hI' (nd_popBack _ hI'), pure_run]
        done)
   | (tie3 h hnd [Gen.swap_remove_back, swapRemoveBack]; done)
-theorem tie_swap_remove_front (i : Nat) (s : Sys) (h : Inv s.buf)
+maybe theorem tie_swap_remove_front (i : Nat) (s : Sys) (h : Inv s.buf)
     (hnd : NonDefect (swapRemoveFront i s).1) :
     Gen.swap_remove_front i s = swapRemoveFront i s := by
   first
